@@ -171,6 +171,31 @@ func (e *Engine) initSummaries(fs []*ssa.Function) {
 				}
 			}
 		}
+		// captured variables: a closure's immutable captured slice has a fixed length; lower bounds on it are proved
+		// once, where the closure is created (whoever calls it later)
+		if f.Parent() != nil {
+			for fi, fv := range f.FreeVars {
+				fi, fv := fi, fv
+				pt, ok := fv.Type().Underlying().(*types.Pointer)
+				if !ok || !isSliceOrStr(pt.Elem()) {
+					continue
+				}
+				if _, ok := immutableCell(fv); !ok {
+					continue
+				}
+				ks := map[int64]bool{1: true, 2: true, 3: true, 4: true}
+				for c := range consts {
+					if c < 1<<16 {
+						ks[c], ks[c+1] = true, true
+					}
+				}
+				for k := range ks {
+					k := k
+					sum.fvPre = append(sum.fvPre, &sumCand{desc: fmt.Sprintf("pre len(fv%d)>=%d", fi, k), res: fi, ok: true,
+						mk: func(e callEnv) Lin { return le(konst(k), e.argLen(fi)) }})
+				}
+			}
+		}
 		if e.knownCallers(f) {
 			addP := func(desc string, mk func(e callEnv) Lin) {
 				sum.pre = append(sum.pre, &sumCand{desc: "pre " + desc, mk: mk, ok: true})
@@ -310,6 +335,45 @@ func (e *Engine) checkPre(fs []*ssa.Function) bool {
 				}
 			}
 			s.noSplit = nil
+		}
+	}
+	return dropped
+}
+
+// checkFvPre proves the captured-variable preconditions of closures where the closures are created.
+func (e *Engine) checkFvPre(fs []*ssa.Function) bool {
+	dropped := false
+	for _, f := range fs {
+		sum := e.sums[f]
+		if sum == nil || len(sum.fvPre) == 0 {
+			continue
+		}
+		parent := f.Parent()
+		if parent == nil {
+			continue
+		}
+		s := e.fn(parent)
+		for _, b := range parent.Blocks {
+			for idx, in := range b.Instrs {
+				mc, ok := in.(*ssa.MakeClosure)
+				if !ok || mc.Fn != ssa.Value(f) {
+					continue
+				}
+				facts, dq := s.factsAt(b, idx)
+				env := callEnv{argLen: func(i int) Lin {
+					v, ok := immutableCell(f.FreeVars[i])
+					if !ok {
+						return term(inlKey{nil, i})
+					}
+					return s.lenOf(v)
+				}}
+				for _, cand := range sum.fvPre {
+					if cand.ok && !s.entails(facts, dq, cand.mk(env)) {
+						cand.ok = false
+						dropped = true
+					}
+				}
+			}
 		}
 	}
 	return dropped
@@ -642,7 +706,8 @@ func Run(prog *ssa.Program, inMod func(*ssa.Function) bool) *Result {
 		e.cases = map[*ssa.Function][]retCase{}
 		d1 := e.checkSummaries(fs)
 		d2 := e.checkPre(fs)
-		if !d1 && !d2 {
+		d3 := e.checkFvPre(fs)
+		if !d1 && !d2 && !d3 {
 			break
 		}
 	}
